@@ -803,7 +803,7 @@ fn dump_state(vfs: &Vfs) -> String {
 }
 
 #[cfg(feature = "persist")]
-fn save_restore(vfs: &Vfs, cfg: &Cfg, ver: u32, default_opts: bool, live: &[Live], sh: &Arc<Shared>) -> Result<(Vfs, String), String> {
+fn save_restore(vfs: &Vfs, cfg: &Cfg, ver: u32, default_opts: bool, live: &[&Live], sh: &Arc<Shared>) -> Result<(Vfs, String), String> {
     let mut buf = if ver == 2 {
         vfs.save_to_bytes().map_err(vfs_err)?
     } else {
@@ -915,8 +915,15 @@ fn main() {
                 "S" => {
                     #[cfg(feature = "persist")]
                     {
-                        // live mounts = last successful mount per index that is still attached
-                        match save_restore(v, &cfg, p(&t, 1), t[2] == "default", &live, &sh) {
+                        // live mounts = last successful mount per index that is still attached, in index order;
+                        // an optional fourth token selects which of them are re-attached and in which order
+                        // ("2,0,1": positions in that list; "none": no backend is re-attached)
+                        let sel: Vec<&Live> = if t.len() > 3 {
+                            if t[3] == "none" { Vec::new() } else { t[3].split(',').map(|x| &live[x.parse::<usize>().unwrap()]).collect() }
+                        } else {
+                            live.iter().collect()
+                        };
+                        match save_restore(v, &cfg, p(&t, 1), t[2] == "default", &sel, &sh) {
                             Ok((nv, s)) => {
                                 replace = Some(nv);
                                 s
